@@ -310,7 +310,7 @@ pub struct Case {
 
 pub fn cases(opts: &Opts) -> Vec<Case> {
     let mut out: Vec<Case> = ops::corpus().into_iter().map(|c| Case { name: c.name, files: c.files }).collect();
-    let n = opts.n(500, 3000);
+    let n = opts.n(500, 600);
     for i in 0..n {
         let mut p = Prng::derive(opts.seed, i as u64, "c04-project");
         let cfg = GenCfg::swarm(&mut p);
